@@ -134,7 +134,7 @@ def main():
             "evidence_file": f"/verif/evidence/{pid}.json",
             "replay_cmd_template": f"./check {pid} quick --replay {{path}}",
             "engine": "ucgverif",
-            "level_claimed": {"category": c.get("level", "exploration"), "text": c["text"], "design_ref": c["ref"]},
+            "level_claimed": {"category": c.get("level", "exploration"), "text": c["text"] + ADDS.get(pid, ""), "design_ref": c["ref"]},
             "level_note": c["note"],
             "technique": c["technique"],
         })
@@ -162,6 +162,30 @@ def main():
     }
     json.dump(m, open(os.path.join(here, "MANIFEST.json"), "w"), indent=1)
     print("wrote MANIFEST.json with", len(checks), "checks;", len(na), "not claimed")
+
+
+# what the three rounds of seeded changes added to each generator (DESIGN.md 10.4)
+ADDS = {
+ "C01": " The generator also produces copy statements with `self` (also inside format expressions), parameter shadowing, heterogeneous tuples, record functions reading several fields, boolean selects with arms of other names, mixed list joins and float edge values (-0.0, inf, NaN).",
+ "C02": " Also runs of 40..160 operators of one precedence level.",
+ "C03": " 1 in 8 values is also built as a file next to older, longer artifacts of the same name and the artifact decoded.",
+ "C04": " Also: constraint programs (recursive, mutually recursive, ill-founded; exemplars nested up to 40 deep), includes of empty / malformed / binary / missing data files, functions with repeated parameter names, functional operations nested 31 deep in callbacks (walker work counted by the hook), valid programs with comments between any two tokens, and flat chains of 300..6000 operators through the binary.",
+ "C06": " Also composite (tuple / list) alternatives with prefix / extension probes, values built by copy with overrides, and the grouped form `:: (name)`.",
+ "C07": " Also record functions reading up to four fields of one argument and called at once, copies of select / filter results, joins of lists of different lengths and element types.",
+ "C08": " Also nested lists / tuples inside list flags.",
+ "C09": " Also byte-identical twin files in two directories, absolute spellings with redundant segments, imports in format-expression arguments and templates, and imports deferred through a function of a finished helper file.",
+ "C10": " Also reserved words as function / callback parameters, scope templates built as files (incl. a module nested in a module), and 1 in 40 cases as a `ucg repl` session of refused rebindings.",
+ "C11": " Also string literals read from a file on disk (1 in 8) and multi-line literals typed into `ucg repl` (1 in 400).",
+ "C12": " Also `ns = \"\"` under an inherited default namespace, xmlns declared through attrs, Latin Extended / IPA names.",
+ "C13": " Also asserts in the body of a module instantiated by a function applied through map, and one run per case with --no-strict.",
+ "C14": " Also nested evaluation (calls, map/reduce, format expressions, module instantiation, imports) before and between out statements.",
+ "C15": " Also stray bytes that make a document invalid UTF-8, files of 1..4 KiB for the raw types, unknown include types on empty files.",
+ "C16": " Also lazily linked broken imports, artifacts of files that fail alone, the batch from a directory below spelled with ../, a data file decoded by two importers, and a shared library across two directories with same-named siblings.",
+ "C17": " Also call arguments of the wrong type, calls nested in calls, lists bound in their own statement mapped / filtered by named functions elsewhere, missing fields of select results.",
+ "C18": " Also several variables per program, reads under `ucg [--no-strict] test`, and strict reads of an unset variable typed into `ucg repl`.",
+ "C19": " Also reversed slice indices and non-ASCII digits after the integer of parse_int.",
+ "C20": " Also edits that move the same text, didChange notifications carrying superseded entries, and six diamonds of disk files whose middle file is opened and closed before the top.",
+}
 
 HOOK_COMMITS = ["dcce9ec", "ed84aac", "d7a09f4"]
 if __name__ == "__main__":
